@@ -56,7 +56,10 @@ func genC09(seed uint64, tier string) Case {
 		body := key == 2 // key index 2 holds a msgpack body and is driven through PatchTreasures
 		uniq++
 		if body {
-			switch r.pick(4, 3, 2, 2) {
+			switch r.pick(4, 3, 2, 2, 3) {
+			case 4:
+				// compare-and-act: INC n by 1 only if n < threshold (two of them must never both succeed on n = threshold-1)
+				c.Ops = append(c.Ops, Op{C: cl, K: "pcas", A: []int64{key, []int64{1, 2, 3, 10}[r.intn(4)]}})
 			case 0:
 				c.Ops = append(c.Ops, Op{C: cl, K: "pinc", A: []int64{key, int64(1 + r.intn(9))}})
 			case 1:
@@ -68,7 +71,10 @@ func genC09(seed uint64, tier string) Case {
 			}
 			continue
 		}
-		switch r.pick(4, 5, 2, 1, 3) {
+		switch r.pick(4, 5, 2, 1, 3, 3) {
+		case 5:
+			// conditional increment: +by only if the value is below the threshold (a missing record counts as 0)
+			c.Ops = append(c.Ops, Op{C: cl, K: "cinc", A: []int64{key, int64(1 + r.intn(3)), []int64{1, 2, 4, 10, 5000000}[r.intn(5)]}})
 		case 0:
 			c.Ops = append(c.Ops, Op{C: cl, K: "set", A: []int64{key, uniq * 1000000}})
 		case 1:
@@ -104,9 +110,10 @@ func genC09(seed uint64, tier string) Case {
 }
 
 type linIn struct {
-	Op  string
-	Key int64
-	Arg int64
+	Op   string
+	Key  int64
+	Arg  int64
+	Arg2 int64
 }
 
 // linOut: Found/Val describe the record as the operation saw or left it.
@@ -163,6 +170,30 @@ var c09Model = porcupine.Model{
 				cur = s.N
 			}
 			return o.Status == "OK" && o.N == cur+in.Arg, kvState{Present: true, N: cur + in.Arg}
+		case "cinc":
+			cur := int64(0)
+			if s.Present {
+				cur = s.N
+			}
+			thr := in.Arg2
+			if cur < thr {
+				return o.Status == "OK" && o.N == cur+in.Arg, kvState{Present: true, N: cur + in.Arg}
+			}
+			return o.Status == "NOINC" && o.N == cur, s
+		case "pcas":
+			cur := kvState{Present: true}
+			if s.Present {
+				cur = s
+			}
+			if cur.N < in.Arg {
+				want := "PATCHED"
+				if !s.Present {
+					want = "CREATED"
+				}
+				cur.N++
+				return o.Status == want, cur
+			}
+			return o.Status == "CONDITION_NOT_MET", s
 		case "pinc":
 			n := s
 			if !s.Present {
@@ -249,6 +280,9 @@ func runC09(t *testing.T, c Case) (res Result) {
 			if len(op.A) > 1 {
 				in.Arg = op.A[1]
 			}
+			if len(op.A) > 2 {
+				in.Arg2 = op.A[2]
+			}
 			call := simrt.EventSeq()
 			var o linOut
 			switch op.K {
@@ -275,6 +309,34 @@ func runC09(t *testing.T, c Case) (res Result) {
 					o.Status = "ERR:not_incremented"
 				default:
 					o.Status, o.N = "OK", resp.Value
+				}
+			case "cinc":
+				resp, err := gw.IncrementInt64(ctxBg, &hydrapb.IncrementInt64Request{IslandID: 1, SwampName: swamp, Key: key, IncrementBy: op.A[1],
+					Condition: &hydrapb.IncrementInt64Condition{RelationalOperator: hydrapb.Relational_LESS_THAN, Value: op.A[2]}})
+				switch {
+				case err != nil:
+					o.Status = errStatus(err)
+				case resp == nil:
+					o.Status = "ERR:nil_response"
+				case !resp.IsIncremented:
+					o.Status, o.N = "NOINC", resp.Value
+				default:
+					o.Status, o.N = "OK", resp.Value
+				}
+			case "pcas":
+				one, _ := msgpack.Marshal(int64(1))
+				thr, _ := msgpack.Marshal(op.A[1])
+				init, _ := msgpack.Marshal(map[string]int64{"n": 0, "v": 0})
+				resp, err := gw.PatchTreasures(ctxBg, &hydrapb.PatchTreasuresRequest{IslandID: 1, SwampName: swamp, CreateIfNotExist: true, InitialMsgpackOnCreate: init,
+					Patches: []*hydrapb.TreasurePatch{{Key: key, Ops: []*hydrapb.PatchOp{{Op: hydrapb.PatchOp_INC, Path: "n", Value: one}},
+						Condition: &hydrapb.PatchCondition{Path: "n", Operator: hydrapb.PatchCondition_LESS_THAN, Threshold: thr}}}})
+				switch {
+				case err != nil:
+					o.Status = errStatus(err)
+				case resp == nil || len(resp.Results) != 1:
+					o.Status = "ERR:malformed"
+				default:
+					o.Status = resp.Results[0].Status.String()
 				}
 			case "pinc", "pset":
 				pop := &hydrapb.PatchOp{Op: hydrapb.PatchOp_INC, Path: "n"}
